@@ -297,13 +297,29 @@ func sanitizeFile(s string) string {
 
 // VerifyFunc runs VC generation and solving with the Houdini loop for inferred invariants.
 func (e *Engine) VerifyFunc(fn *ssa.Function, cfg SolverCfg) *FuncResult {
+	return e.VerifyFuncOpts(fn, cfg, false, nil)
+}
+
+func (e *Engine) VerifyFuncOpts(fn *ssa.Function, cfg SolverCfg, nilcheck bool, mu *sync.Mutex) *FuncResult {
 	t0 := time.Now()
+	lock := func() {
+		if mu != nil {
+			mu.Lock()
+		}
+	}
+	unlock := func() {
+		if mu != nil {
+			mu.Unlock()
+		}
+	}
 	res := &FuncResult{Func: e.fnShort(fn), Pos: e.fset.Position(fn.Pos()).String()}
 	dead := map[string]bool{}
 	for round := 1; round <= 6; round++ {
-		s := &Sess{eng: e, fn: fn, ct: e.contractFor(fn)}
+		lock()
+		s := &Sess{eng: e, fn: fn, ct: e.contractFor(fn), nilcheck: nilcheck}
 		res.HasContract = s.ct != nil
 		func() {
+			defer unlock()
 			defer func() {
 				if r := recover(); r != nil {
 					if ee, ok := r.(evalErr); ok {
@@ -334,7 +350,7 @@ func (e *Engine) VerifyFunc(fn *ssa.Function, cfg SolverCfg) *FuncResult {
 		if again {
 			continue
 		}
-		e.pathSplit(fn, s, dead, cfg)
+		e.pathSplit(fn, s, dead, cfg, mu)
 		res.Obligations = nil
 		for _, ob := range s.obs {
 			if ob.Houdini != nil {
@@ -421,7 +437,7 @@ func enumPaths(fn *ssa.Function, budget int) []map[[2]int]bool {
 
 // pathSplit retries every undischarged obligation path by path: the VC of one path has no merged
 // (ite) heaps, which the solvers handle far more reliably. Discharged only if every path is.
-func (e *Engine) pathSplit(fn *ssa.Function, s *Sess, dead map[string]bool, cfg SolverCfg) {
+func (e *Engine) pathSplit(fn *ssa.Function, s *Sess, dead map[string]bool, cfg SolverCfg, mu *sync.Mutex) {
 	var failing []int
 	for i, ob := range s.obs {
 		if ob.Houdini == nil && !ob.MustFail && ob.Status != "unsat" {
@@ -441,8 +457,12 @@ func (e *Engine) pathSplit(fn *ssa.Function, s *Sess, dead map[string]bool, cfg 
 	}
 	var total float64
 	for pi, deadEdges := range paths {
-		ps := &Sess{eng: e, fn: fn, ct: s.ct, edgeDead: deadEdges}
+		ps := &Sess{eng: e, fn: fn, ct: s.ct, edgeDead: deadEdges, nilcheck: s.nilcheck}
 		ok := func() (ok bool) {
+			if mu != nil {
+				mu.Lock()
+				defer mu.Unlock()
+			}
 			defer func() {
 				if r := recover(); r != nil {
 					ok = false
